@@ -591,12 +591,66 @@ def preludeSrc : String := SteelVerif.Base.preludeSrc ++ "
 (define (into-list) 'into-list)
 (define (transduce l f r) (map f l))"
 
-/-- NOT the specification: `reset` / `shift` as stdlib.scm implements them (Filinski's encoding on top of
-the PRIMITIVE call/cc — stdlib.scm does not see the winders wrapper of parameters.scm — with ONE mutable
-meta-continuation cell).  Used only to attribute a disagreement real ≠ S to finding
-K08b: the cell is neither restored when an error leaves a `reset` nor saved/restored by call/cc
-continuations that cross a `reset`. -/
-def implPreludeSrc : String := preludeSrc ++ "
+/-- NOT the specification: the Scheme-level mechanisms of the real engine, transcribed into the object language
+and run on this machine's PRIMITIVE continuations (`%raw-call/cc`) and handler frames:
+  * parameters.scm: `winders` (a mutable global list), `same-winders?`, `common-tail`, `do-wind`, the `call/cc`
+    wrapper and `dynamic-wind` with its exception handler.  An entry is `(id . (in . out))`; `id` is a fresh
+    number standing for the identity of the `(in . out)` pair that `eq?` compares;
+  * stdlib.scm: `reset` / `shift` (Filinski's encoding on the primitive call/cc — stdlib.scm does not see the
+    winders wrapper — with ONE mutable meta-continuation cell) and `with-handler` (see `expandControl`).
+Used only to attribute a disagreement real ≠ S to an open finding: the real engine must behave exactly like this
+variant.  `guarded`: the exception handler of dynamic-wind leaves the extent only if it is still the innermost
+entered one (the proposed repair of finding K08g). -/
+def implPreludeSrc (guarded : Bool) : String := preludeSrc ++ "
+(define *winders* '())
+(define *wid* 0)
+(define (same-winders? x y)
+  (if (null? x) (null? y)
+      (if (null? y) #f
+          (if (= (car (car x)) (car (car y))) (same-winders? (cdr x) (cdr y)) #f))))
+(define (common-tail x y)
+  (let ((lx (length x)) (ly (length y)))
+    (let loop ((x (if (> lx ly) (list-tail x (- lx ly)) x))
+               (y (if (> ly lx) (list-tail y (- ly lx)) y)))
+      (if (same-winders? x y) x (loop (cdr x) (cdr y))))))
+(define (do-wind new)
+  (let ((tail (common-tail new *winders*)))
+    (let f ((ls *winders*))
+      (when (not (same-winders? ls tail))
+        (begin (set! *winders* (cdr ls)) ((cdr (cdr (car ls)))) (f (cdr ls)))))
+    (let f ((ls new))
+      (when (not (same-winders? ls tail))
+        (begin (f (cdr ls)) ((car (cdr (car ls)))) (set! *winders* ls))))))
+(define (call/cc f)
+  (%raw-call/cc (lambda (k)
+    (f (let ((save *winders*))
+         (lambda (x) (unless (same-winders? save *winders*) (do-wind save)) (k x)))))))
+(define call-with-current-continuation call/cc)
+" ++ (if guarded then "
+(define (dynamic-wind in body out)
+  (in)
+  (set! *wid* (+ *wid* 1))
+  (let ((entry (cons *wid* (cons in out))))
+    (set! *winders* (cons entry *winders*))
+    (let ((ans* (call-with-exception-handler
+                  (lambda (err)
+                    (when (if (pair? *winders*) (= (car (car *winders*)) (car entry)) #f)
+                      (begin (set! *winders* (cdr *winders*)) (out)))
+                    (raise-error err))
+                  (lambda () (body)))))
+      (set! *winders* (cdr *winders*))
+      (out)
+      ans*)))" else "
+(define (dynamic-wind in body out)
+  (in)
+  (set! *wid* (+ *wid* 1))
+  (set! *winders* (cons (cons *wid* (cons in out)) *winders*))
+  (let ((ans* (call-with-exception-handler
+                (lambda (err) (set! *winders* (cdr *winders*)) (out) (raise-error err))
+                (lambda () (body)))))
+    (set! *winders* (cdr *winders*))
+    (out)
+    ans*))") ++ "
 (define *mc* (lambda (v) (error \"You forgot the top-level reset...\")))
 (define (*abort thunk) (let ((v (thunk))) (*mc* v)))
 (define (*reset thunk)
@@ -627,6 +681,6 @@ def initStateOf (src : String) : St :=
   | none => {}
 
 def initState : St := initStateOf preludeSrc
-def implInitState : St := { initStateOf implPreludeSrc with eqMode := true }
+def implInitState (guarded : Bool) : St := initStateOf (implPreludeSrc guarded)
 
 end SteelVerif.C08
